@@ -6,8 +6,8 @@ pointers are valid and the package-level objects hold their values, the operator
 without panic, keeps every existing cell, and the values found behind the result pointers are
 exactly what the value model computes from the values behind the operand pointers.
 So every theorem of Props/C06.lean (soundness, exact failure, tightness) is also a theorem about
-what the pointer-level code returns.  (And / Or: the same agreement is checked by the driver on
-every harness line, not proved.)
+what the pointer-level code returns.  (And / Or, whose helpers update new objects in place:
+`Proof/IntervalHeapRefineBits.lean`.)
 -/
 import WuffsVerif.Proof.IntervalOps
 import WuffsVerif.Proof.IntervalHeap
